@@ -11,3 +11,5 @@ import DafRel.Props.C15
 #print axioms DafRel.Props.C15.finishApply_keeps_locked_nodes
 #print axioms DafRel.Props.C15.transfer_through_sql_keeps_content
 #print axioms DafRel.Props.C15.materialize_sql_keeps_content
+#print axioms DafRel.Props.C15.sql_engine_never_backtracks
+#print axioms DafRel.Props.C15.bridge_engine_dispatch
